@@ -237,6 +237,12 @@ class Constant(DataclassHideDefault):
             return False
         return constant_key(self.constant) == constant_key(__o.constant)
 
+    def __hash__(self) -> int:
+        from ._constants import constant_key
+
+        # Hash what we compare, so that equal constants (like two NaNs) hash equal
+        return hash((constant_key(self.constant), self._index_override))
+
 
 @dataclass(frozen=True)
 class Freevar(DataclassHideDefault):
